@@ -22,8 +22,9 @@ def gen_plan(rng, opts=None):
             seq.append(rng.choice(["ok", "ok", "syn_only", "double_syn", "header_no_value", "extra_frame", "empty", "header_extra", "syn_header_no_value",
                                    "syn_payload_extra", "plain_extra"]))
         return dict(mode="malformed", seq=seq, lat_hi=rng.choice([50_000, 5_000_000]))
-    n = rng.randint(1, 3)
+    n = rng.choice([1, 2, 2, 3, 3, 4, 5])
     wph = rng.randint(1, 2)
+    stagger = [rng.choice([0, 0, rng.randint(0, 2000)]) for _ in range(n)]     # ms before each executor starts: heartbeat phases
     ops = []
     tag = 0
     for _ in range(rng.randint(3, o["max_ops"])):
@@ -46,7 +47,7 @@ def gen_plan(rng, opts=None):
     if o["partition"]:
         part = dict(host=rng.randrange(n), at_op=rng.randrange(len(ops)), dir=rng.choice(["both", "to_ctrl", "to_exec"]))
         knobs["max_retries"] = rng.choice([3, 5])
-    return dict(mode="traffic", n=n, wph=wph, ops=ops, net=net, knobs=knobs, partition=part)
+    return dict(mode="traffic", n=n, wph=wph, ops=ops, net=net, knobs=knobs, partition=part, stagger=stagger)
 
 
 class Mon:
@@ -235,6 +236,9 @@ def _run_traffic(plan, ch, want_log):
     n, wph = plan["n"], plan["wph"]
 
     def launch(i):
+        d = (plan.get("stagger") or [0] * n)[i] if i < len(plan.get("stagger") or []) else 0
+        if d:
+            K.sleep(d * 1_000_000)
         e = ex.Executor(job, CTRL, wph, f"h{i}", 12001 + 10 * i)
         e.register()
         e.recv_loop()
@@ -541,6 +545,7 @@ def shrink_candidates(plan):
     if plan["n"] > 1:
         c = copy.deepcopy(plan)
         c["n"] -= 1
+        c["stagger"] = (c.get("stagger") or [])[:c["n"]]
         c["ops"] = [op for op in c["ops"] if op[0] == "wait" or op[1] < c["n"]]
         if c.get("partition") and c["partition"]["host"] >= c["n"]:
             c["partition"]["host"] = 0
